@@ -188,6 +188,17 @@ CLAIMS["C08"] = dict(
               "equals the old text up to whitespace, _modify_token of the 14 token classes, the line pass write-back (C10 covers who "
               "writes when). Meaning preservation of the whole pipeline is not decided by this check.")
 
+CLAIMS["C06"] = dict(
+    text="Proof for the rules brought under contract (a fragment: the property quantifies over all 46 rules): MD013 -- "
+         "initialize_from_config establishes that the quick-reject threshold never exceeds any of the three limits, and next_line reports "
+         "exactly once iff the documented condition holds for the element kind of the line (limit by kind, headings / code_blocks "
+         "switches, long-last-word exemption, strict), for all lines and configurations (stern mode: known finding D13); for all 46 "
+         "rules the configuration items read by initialize_from_config (names, types, defaults) equal the documented table "
+         "(shared with C17), so 'the active configuration' is the documented one.",
+    note=TB + "Known finding D13 (MD013 stern mode inverted). NOT covered: the trigger conditions of the other 45 rules (their "
+              "token-driven state machines need the token stream specified first, C04/C05 in full); which leaf token a line belongs "
+              "to is taken from the rule's own bookkeeping (the contract quantifies over it).")
+
 NA = {
     "C01": "totality of the ~60 kLoC parser is a postcondition of TokenizedMarkdown.transform; no contract chain within reach without a Python deductive verifier (DESIGN.md 7)",
     "C02": "round-trip of parser + 5 kLoC regenerator needs the token stream specified as an encoding of the document (C03+C04+C05 in full) first (DESIGN.md 7)",
